@@ -434,6 +434,23 @@ func removeType(root types.ObjectType, path []step) {
 	}
 }
 
+// removeTypeInValue deletes the attribute type named by path from the object VALUES stored along the
+// path (a stored nested object carries its own AttrTypes, which the converters use when they reuse it).
+func removeTypeInValue(o types.Object, path []step) {
+	cur := o
+	for i, s := range path {
+		if i == len(path)-1 {
+			delete(cur.AttrTypes, s.attr)
+			return
+		}
+		next, ok := cur.Attrs[s.attr].(types.Object)
+		if !ok {
+			return // lists and maps: elements are built from the element type
+		}
+		cur = next
+	}
+}
+
 // typeFaults enumerates removable attribute types reached by source value src.
 func typeFaults(n *spec.Node, src reflect.Value, path []step, out *[]typeFault) {
 	for _, e := range n.Entries {
@@ -729,8 +746,27 @@ func c06To(t *rapid.T, re *rootEnv, h *history) {
 		st.probe("copy-to-onto-decoded-target")
 		return
 	}
+	// the target is fresh, or REUSED: a complete target that an earlier CopyTo filled, from which the
+	// attribute types are then removed in place (the values written before stay where they are)
+	reused := rapid.IntRange(0, 2).Draw(t, "reusedTarget")
+	var src0 interface{}
+	switch reused {
+	case 1:
+		src0 = src
+		h.add("TargetReused", "first written from the same source")
+	case 2:
+		src0 = genStruct(t, re, "t0")
+		h.add("TargetReused", "first written from "+describeStruct(re, src0))
+	}
+	// the twin goes through the same history without the fault (what a reused target keeps from its
+	// earlier state is C09's business, not this property's)
 	twinO := re.emptyObject()
 	var twinErrs []string
+	if reused != 0 {
+		if p := safely(func() { twinErrs = errorDiags(re.fn.To(ctx, src0, &twinO)) }); p != "" || len(twinErrs) > 0 {
+			return
+		}
+	}
 	if p := safely(func() { twinErrs = errorDiags(re.fn.To(ctx, src, &twinO)) }); p != "" || len(twinErrs) > 0 {
 		return
 	}
@@ -749,15 +785,23 @@ func c06To(t *rapid.T, re *rootEnv, h *history) {
 	sort.Strings(keys)
 	run := func(fs []typeFault, what string) {
 		typ := cloneType(re.objType).(types.ObjectType)
+		O := types.Object{Attrs: map[string]attr.Value{}, AttrTypes: typ.AttrTypes}
+		if reused != 0 {
+			var errs []string
+			if p := safely(func() { errs = errorDiags(re.fn.To(ctx, src0, &O)) }); p != "" || len(errs) > 0 {
+				return // the fault-free first write misbehaves: C07's business
+			}
+			st.probe("type-removed-from-reused-target")
+		}
 		removed := map[string]bool{}
 		var ffs []fault
 		for _, f := range fs {
 			removeType(typ, f.path)
+			removeTypeInValue(O, f.path)
 			removed[typePathKey(f.path)] = true
 			st.fault(fTypeGone)
 			ffs = append(ffs, fault{kind: fTypeGone, path: f.path, expect: []expDiag{f.expect}})
 		}
-		O := types.Object{Attrs: map[string]attr.Value{}, AttrTypes: typ.AttrTypes}
 		var ds diag.Diagnostics
 		if p := safely(func() { ds = re.fn.To(ctx, src, &O) }); p != "" {
 			violate(t, "C06/copy-to/no-panic", "CopyTo panicked: %s\nremoved types: %v\nhistory: %s", p, removedList(fs), strings.Join(h.lines, " ; "))
